@@ -69,6 +69,9 @@ func queueScenarios(prop string, thorough bool) []Scenario {
 	// Jobs that exist before the controller starts (recovery of the store, restart).
 	s = QueueScenario{Name: "preexisting-restart", MaxConcurrency: 1, Preexisting: []string{"Enqueue", "Enqueue"}, Creates: []string{"Forbid"}, MaxCreates: 3, Horizon: 600, Budget: mc.Budget{Crashes: 1}}
 	add(s)
+	// Restart while a started Job is being deleted (held by its finalizer): it still occupies its slot.
+	s = QueueScenario{Name: "enqueue2-delete-crash1", MaxConcurrency: 1, Creates: []string{"Enqueue", "Enqueue"}, MaxCreates: 2, Delete: true, Horizon: 600, Budget: mc.Budget{Crashes: 1}}
+	add(s)
 	// Restart with informers that list one after the other: Job notifications handled while the
 	// JobConfig cache is still empty (and the other way round), store recovered afterwards.
 	s = QueueScenario{Name: "enqueue2-coldrestart", MaxConcurrency: 1, Creates: []string{"Enqueue", "Enqueue"}, MaxCreates: 2, Horizon: 600, ColdStart: true, Budget: mc.Budget{Crashes: 1}}
